@@ -1,0 +1,38 @@
+//go:build verif
+
+// Contracts for gvc (/verif). Comment-only: this file adds no declarations.
+
+package flag
+
+// C17 sweep: zero-annotation panic-freedom obligations for the module's functions,
+// for every argument value.
+//@ func callOpts.SetDefaultOptions
+//@   props C17
+//@ func convertStringArgs
+//@   props C17
+//@ func parse
+//@   props C17
+//@ func newFlagSet
+//@   props C17
+//@ func addFlag
+//@   props C17
+//@ func numFlag.String
+//@   props C17
+//@ func numFlag.Get
+//@   props C17
+//@ func numFlag.Set
+//@   props C17
+//@ func listFlag.String
+//@   props C17
+//@ func listFlag.Get
+//@   props C17
+//@ func listFlag.Set
+//@   props C17
+//@ func specStruct.OptionSpec
+//@   props C17
+//@ func parseGetoptOptions.SetDefaultOptions
+//@   props C17
+//@ func parseGetoptOptions.Config
+//@   props C17
+//@ func parseGetopt
+//@   props C17
